@@ -1,6 +1,7 @@
 package main
 
 import (
+	"context"
 	"github.com/spf13/viper"
 	"strings"
 	"fmt"
@@ -395,6 +396,10 @@ func init() {
 			}
 			checkC08(ctx, rigs["cmd"], c)
 		}
+		// the real monitor loop across an outage of the sensor
+		if ctx.Batch%4 == 1 {
+			c08MonitorOutage(ctx, r)
+		}
 		// the monitor's poll while a Prometheus scrape reads the same command sensor
 		for i, ns := 0, ctx.N(3, 30); i < ns; i++ {
 			c08WhileScraped(ctx, rigs["cmd"], r)
@@ -468,6 +473,77 @@ func c08WhileScraped(ctx *Ctx, rig *c08Rig, r *rand.Rand) {
 		ctx.Violation("average-outside-hull:cmd:while-scraped", fmt.Sprintf("%s: smoothed value %v -> %v", jsonStr(c), before, after), c)
 	}
 	ctx.Nontrivial(fmt.Sprintf("scraped|%s|%d", kind, window))
+}
+
+// c08MonitorOutage: the daemon's own monitor loop (internal.NewSensorMonitor(...).Run) on a file sensor whose file is
+// gone for many polling periods (longer than the window) and then comes back with another reading. The smoothed value,
+// sampled every 2 ms from outside, never leaves the range of the initial value and the two readings.
+func c08MonitorOutage(ctx *Ctx, r *rand.Rand) {
+	dir := ctx.Path(uniqueId("c08mon"))
+	_ = os.MkdirAll(dir, 0755)
+	defer os.RemoveAll(dir)
+	path := filepath.Join(dir, "temp")
+	a, b := float64(30000+r.Intn(20000)), float64(50000+r.Intn(30000))
+	if r.Intn(2) == 0 {
+		a, b = b, a
+	}
+	window := pick(r, 1, 2, 4, 10)
+	configuration.CurrentConfig.TempRollingWindowSize = window
+	_ = os.WriteFile(path, []byte(fmtReading("file", a)+"\n"), 0644)
+	sn, err := sensors.NewSensor(configuration.SensorConfig{ID: uniqueId("c08mon"), File: &configuration.FileSensorConfig{Path: path}})
+	if err != nil {
+		ctx.Inconclusive("monitor outage: " + err.Error())
+		return
+	}
+	sn.SetMovingAvg(a)
+	desc := map[string]interface{}{"scenario": "monitor loop, polling rate 10 ms: reading A, file missing for 40 polling periods, reading B", "window": window, "a": a, "b": b}
+	ctx.SampleKind("monitor-outage", desc)
+	cctx, cancel := context.WithCancel(context.Background())
+	done := make(chan string, 1)
+	go func() {
+		_, msg := Guard(func() { _ = internal.NewSensorMonitor(sn, 10*time.Millisecond).Run(cctx) })
+		done <- msg
+	}()
+	lo, hi := math.Min(a, b), math.Max(a, b)
+	worst, samples := 0.0, 0
+	var worstAvg float64
+	sample := func(d time.Duration) {
+		for t0 := time.Now(); time.Since(t0) < d; time.Sleep(2 * time.Millisecond) {
+			avg := sn.GetMovingAvg()
+			samples++
+			over := math.Max(lo-avg, avg-hi)
+			if math.IsNaN(avg) {
+				over = math.Inf(1)
+			}
+			if over > worst {
+				worst, worstAvg = over, avg
+			}
+		}
+	}
+	sample(150 * time.Millisecond)
+	_ = os.Rename(path, path+".gone")
+	sample(400 * time.Millisecond)
+	_ = os.WriteFile(path+".new", []byte(fmtReading("file", b)+"\n"), 0644)
+	_ = os.Rename(path+".new", path)
+	sample(400 * time.Millisecond)
+	cancel()
+	select {
+	case msg := <-done:
+		if msg != "" {
+			ctx.Violation("monitor-outage:panic", msg, desc)
+			return
+		}
+	case <-time.After(60 * time.Second):
+		ctx.Inconclusive("monitor outage: the monitor did not stop within 60 s")
+		return
+	}
+	ctx.Eval(int64(samples))
+	if worst > ulpTau(hi) {
+		ctx.Violation("average-outside-hull:file:monitor-loop-after-an-outage", fmt.Sprintf("%s: smoothed value %v observed, readings only ever %v and %v", jsonStr(desc), worstAvg, a, b), desc)
+		return
+	}
+	ctx.Count("monitor_loop_samples_across_an_outage", int64(samples))
+	ctx.Nontrivial(fmt.Sprintf("monitor-outage|%d|%v", window, a < b))
 }
 
 func c08TimeLimitError(err error) bool {
